@@ -63,6 +63,7 @@ CODES = {
     126: 'a request of the scaffolding of a history failed although every server was up: GetShardsInfo',
     127: 'a request of the scaffolding of a history failed although every server was up: a shard read on the server that owns it',
     128: 'a search answer already handed to its caller was modified by a later search on the same node (a reused buffer)',
+    129: 'with every server up and every shard request held for 5.5 s (RPC timeout 20 s) an update reported failed points, or a search failed or missed stored points: nothing may be reported failed that a shard processed',
     201: 'search: the number of rows, or the sort-key / hybrid class at some position, differs from the model cluster_search '
          '(per-shard limit and offset rewriting, merge, cut) applied to the shard contents',
     203: 'the per-shard limit computed by the Go expression differs from Model_C17.per_shard_limit (float32 rounding model)',
@@ -110,3 +111,4 @@ CFG['rule'] = CFG['rule'] + ' ' + "The stream on curateFailedPoints has requests
 CFG['rule'] = CFG['rule'] + ' ' + 'CPass: on a collection that lives in one shard, a composite of a weighted vector sub-query and a filter (no sort keys, no paging) is asked at the cluster and at the shard before every group of searches: same points, same order (code 109).'
 CFG['rule'] = CFG['rule'] + ' ' + 'Every node lists the same servers starting with itself (placement must be a function of the set). Three histories of four give the collection name an earlier life on the same cluster (created, filled to the same shard count, searched through every node, deleted). A request of this scaffolding that fails on a healthy cluster is recorded as an observation (CUnexpected, codes 121..127), not as a harness failure.'
 CFG['rule'] = CFG['rule'] + ' ' + 'One history in four has the all-zero / all-ones uuid in its id pool; the previous search answer of a history is re-checked after the next search (code 128).'
+CFG['rule'] = CFG['rule'] + ' ' + 'One scenario per run (a process of its own, c17slow.go) holds every shard callback for 5.5 s on a healthy two-server cluster with an RPC timeout of 20 s while an update of every stored point and a search for every stored point go through the entry node: no point may be reported failed and every point is returned (code 129).'
